@@ -22,9 +22,6 @@ package cache
 //@ func (*SubCache).ResolvePrefix
 //@   trusted
 //@   modifies nothing
-//@ func (*SubCache).Resolve
-//@   trusted
-//@   modifies nothing
 // ResolveComment: the bug handed back is the one that holds the comment handed back, and that comment's
 // combined id starts with the given prefix (C13: "resolves to that comment and its bug, never to another").
 //@ func (*RepoCacheBug).ResolveComment
@@ -156,9 +153,6 @@ package cache
 //@     invariant [seen-in-map]  forall id entity.Id :: { iterseen[id] } iterseen[id] ==> (id in sc.excerpts)
 //@     invariant [fresh-list]   fresh(matching)
 
-//@ func (*SubCache).ResolveExcerpt
-//@   trusted
-//@   modifies nothing
 
 // The snapshot wrapper (C10, "the state the cache maintains incrementally equals a compilation from
 // scratch"): with a cached snapshot, Append performs exactly the loop body of Compile - one Apply of the
@@ -216,8 +210,103 @@ package cache
 
 //@ func (*SubCache).allIds
 //@   props C18
+//@   opt locks
+//@   opt pre_only_if=locks
+//@   requires [held] sync.rwheld[&sc.mu] != 0
 //@   modifies nothing
 //@   opt trusted_frame
+
+// ---- shared state of a sub-cache (C18) ------------------------------------------------------------------
+// The excerpt table and the table of loaded entities are shared between the goroutines of the web UI; they
+// may only be touched with the sub-cache's lock held (read lock to read, write lock to change), and nothing
+// learnt about them in one critical section is still known in the next.
+//@ guarded SubCache.cached, SubCache.excerpts by SubCache.mu
+
+// Resolve: the entity is looked up under the read lock; on a miss it is read from git with no lock held and
+// then published under the write lock. Exactly one instance per entity may ever be handed out - two
+// instances of one bug would each accept edits and the later commit would overwrite the earlier one - so
+// the publication must not replace an instance that another goroutine published in the meantime.
+//@ func (*SubCache).Resolve
+//@   props C18
+//@   opt locks
+//@   opt pre_only_if=locks
+//@   requires [not-held] sc != nil && sync.rwheld[&sc.mu] == 0
+//@   modifies nothing
+//@   opt trusted_frame
+//@   ensures [lock-balanced] forall m *sync.RWMutex :: { sync.rwheld[m] } sync.rwheld[m] == old(sync.rwheld[m])
+//@   assert at `sc.cached[id] = cached` [single-instance] !(id in sc.cached)
+
+//@ func (*SubCache).ResolveExcerpt
+//@   props C18
+//@   opt locks
+//@   opt pre_only_if=locks
+//@   requires [not-held] sc != nil && sync.rwheld[&sc.mu] == 0
+//@   modifies nothing
+//@   opt trusted_frame
+//@   ensures [lock-balanced] forall m *sync.RWMutex :: { sync.rwheld[m] } sync.rwheld[m] == old(sync.rwheld[m])
+
+//@ func (*SubCache).add
+//@   props C18
+//@   opt locks
+//@   opt pre_only_if=locks
+//@   requires [not-held] sc != nil && sync.rwheld[&sc.mu] == 0
+//@   ensures [lock-balanced] forall m *sync.RWMutex :: { sync.rwheld[m] } sync.rwheld[m] == old(sync.rwheld[m])
+//@   assert at `sc.cached[e.Id()] = cached` [single-instance] !(e.Id() in sc.cached)
+
+//@ func (*SubCache).entityUpdated
+//@   props C18
+//@   opt locks
+//@   opt pre_only_if=locks
+//@   requires [not-held] sc != nil && sync.rwheld[&sc.mu] == 0
+//@   ensures [lock-balanced] forall m *sync.RWMutex :: { sync.rwheld[m] } sync.rwheld[m] == old(sync.rwheld[m])
+
+//@ func (*SubCache).Remove
+//@   props C18
+//@   opt locks
+//@   requires [not-held] sc != nil && sync.rwheld[&sc.mu] == 0
+//@   ensures [lock-balanced] forall m *sync.RWMutex :: { sync.rwheld[m] } sync.rwheld[m] == old(sync.rwheld[m])
+
+//@ func (*SubCache).RemoveAll
+//@   props C18
+//@   opt locks
+//@   requires [not-held] sc != nil && sync.rwheld[&sc.mu] == 0
+//@   ensures [lock-balanced] forall m *sync.RWMutex :: { sync.rwheld[m] } sync.rwheld[m] == old(sync.rwheld[m])
+
+//@ func (*SubCache).write
+//@   props C18
+//@   opt locks
+//@   opt pre_only_if=locks
+//@   requires [not-held] sc != nil && sync.rwheld[&sc.mu] == 0
+//@   ensures [lock-balanced] forall m *sync.RWMutex :: { sync.rwheld[m] } sync.rwheld[m] == old(sync.rwheld[m])
+
+//@ func (*SubCache).Close
+//@   props C18
+//@   opt locks
+//@   requires [not-held] sc != nil && sync.rwheld[&sc.mu] == 0
+//@   ensures [lock-balanced] forall m *sync.RWMutex :: { sync.rwheld[m] } sync.rwheld[m] == old(sync.rwheld[m])
+
+// The lock of a cached entity (CachedEntityBase.mu / IdentityCache.mu), as seen through the CacheEntity
+// interface: Lock() takes it for writing and never gives it back.
+//@ spec func entityLock(e CacheEntity) *sync.RWMutex
+//@ axiom entity_lock_is_not_a_subcache_lock: forall e CacheEntity :: forall s *SubCache :: { entityLock(e), &s.mu } entityLock(e) != &s.mu
+//@ func CacheEntity.Lock
+//@   modifies sync.rwheld
+//@   defines sync.rwheld == update(old(sync.rwheld), entityLock(recv), -1)
+//@ func CacheEntity.NeedCommit
+//@   modifies nothing
+
+// evictIfNeeded takes the sub-cache lock and, by design, locks every evicted entity for good ("if something
+// tries to [use it] anyway, it will lock the program and make it obvious"): the contract below - every lock is
+// left as it was found - therefore does not hold, which is recorded as a known finding of C18 (a goroutine
+// that still holds the evicted instance blocks forever on its next call).
+//@ func (*SubCache).evictIfNeeded
+//@   props C18
+//@   opt locks
+//@   opt pre_only_if=locks
+//@   requires [not-held] sc != nil && sync.rwheld[&sc.mu] == 0
+//@   ensures [lock-balanced] forall m *sync.RWMutex :: { sync.rwheld[m] } sync.rwheld[m] == old(sync.rwheld[m])
+//@   loop 1
+//@     invariant [cache-lock-kept] sync.rwheld[&sc.mu] == -1
 
 // ---- wipe (C14) ------------------------------------------------------------------------------------------
 // entitiesWiped: every bug and identity (refs, cache entries, index documents) has been removed.
